@@ -186,7 +186,8 @@ class Renamer(object):
         cur = class_shape(cls)
         known_attrs = [a for a, _ in sh["attrs"]]
         cur_attrs = [a for a, _ in cur["attrs"]]
-        missing = [a for a in known_attrs if a not in cur_attrs]
+        defined = set(m.name for m in cls.body if isinstance(m, (ast.FunctionDef, ast.AsyncFunctionDef)))      # (a property of that name: the name is taken)
+        missing = [a for a in known_attrs if a not in cur_attrs and a not in defined]
         unknown = [a for a in cur_attrs if a not in known_attrs and self._free(a)]
         if not (missing and unknown):
             return
